@@ -15,6 +15,11 @@ import (
 // just before: one scratch buffer shared by the HOTP and the OCRA derivation, a parameter object left behind by the URL
 // builder, a parser's memo. The oracle of the observed call does not change — only the state it starts from.
 func disturb(kind int) {
+	if kind == 0 {
+		return
+	}
+	// what these calls return or whether they panic is not this check's business (MustHexPadLeft may panic by contract)
+	defer func() { _ = recover() }()
 	const sec = "GEZDGNBVGY3TQOJQGEZDGNBVGY3TQOJQ"
 	q := make([]byte, 128)
 	for i := range q {
